@@ -919,7 +919,9 @@ def planner(
         # set the final order of the multiindex
         best_index, matches = best_index.finalize()
 
-        if best_index is INDEXES["created_at"] and not (query.since or query.until):
+        if best_index is INDEXES["created_at"] and (
+            query.since is None and query.until is None
+        ):
             # don't allow range scans
             if log:
                 log.info("No range scans allowed %s", query_items)
